@@ -302,7 +302,8 @@ def run(tier, seed):
     sc = [(sp, dict(o, max_time=o["max_time"] + 30)) for sp, o in F.scale_items(("TSLACK", "SPT")) if sp["label"] in ("scale:wide12", "scale:wide12-6workers", "scale:layers3x4", "scale:seven-predecessors", "scale:8components", "scale:ten-predecessors", "scale:nine-successors",
                                                                                                           "scale:ambiguous-ids-workers", "scale:ambiguous-ids-teams", "scale:queue-of-nine")
           and not o.get("res_absence")]
-    sc += [(sp, dict(o, max_time=o["max_time"] + 30, phases=())) for sp, o in F.large_items(("TSLACK", "SPT"))]  # the larger catalogue (20-30 tasks, runs of up to 160 steps)
+    sc += [(sp, dict(o, max_time=o["max_time"] + 30, phases=())) for sp, o in F.large_items(("TSLACK", "SPT"))
+           if not any(k in ("FF", "SF") for _, _, k in sp["links"])]  # the larger catalogue (20-30 tasks, runs of up to 160 steps); models with FF/SF links and shared workers may deadlock (precondition)
     lad = F.diamond_ladder_spec(32)
     sc.append((lad, {"rule": "TSLACK", "max_time": 3 * 32 + 10, "phases": ()}))  # 97 tasks in 32 reconvergent stages (2^32 paths)
     colb.merge(stepcheck.explore(sc, [mon_feasible], 0, 0, seed=seed))  # medium-sized feasible models
